@@ -310,6 +310,11 @@ class Recorder:
                     await aio.async_close()
                 self.closed = True
                 self.ev('api_ret', op='close', ok=True)
+                if st.get('cancel_bg'):
+                    # the application drops what it had in flight (a registration still probing) as soon as close has returned
+                    for fut in self.bg:
+                        if not fut.done():
+                            fut.cancel()
             except Exception as ex:  # noqa: BLE001
                 self.ev('api_ret', op='close', ok=False, exc=type(ex).__name__)
 
@@ -357,7 +362,11 @@ class Recorder:
         ans = []
         for r in st['recs']:
             ans.append((r['rec'][0], r['rec'][1], r['rec'][2] | (0x8000 if r.get('fl') else 0), r['ttl'], self._rd(r['rec'])))
-        return wire.build(flags=0x8400, answers=ans)
+        qs = []
+        if st.get('echo_qu') and ans:
+            # a responder that echoes the question it answers, unicast-response bit included
+            qs = [(ans[0][0], ans[0][1], 1 | 0x8000)]
+        return wire.build(flags=0x8400, questions=qs, answers=ans)
 
     def start_browser(self, st: dict) -> None:
         from zeroconf import ServiceListener
@@ -1087,7 +1096,7 @@ def gen_c17(rng: random.Random, sid: str, thorough: bool = False) -> dict:
         merged.append((t_close, k + 1000, {'op': 'close', 'deadline_ms': rng.choice([1, 60, 124, 126, 200, 249])}))
         merged.append((t_close + rng.choice([250, 300, 1000, 20000]), k + 1001, {'op': 'close'}))
     else:
-        merged.append((t_close, k + 1000, {'op': 'close'}))
+        merged.append((t_close, k + 1000, {'op': 'close', 'cancel_bg': rng.random() < 0.5}))
     # traffic after the close request: immediately (during the goodbyes), shortly after, and hours later
     post = []
     svcs = [s['svc'] for s in steps if s['op'] == 'reg']
